@@ -1,6 +1,10 @@
 import LlgoVerif.Lemmas.CoreGo
 import LlgoVerif.Lemmas.OrderFix
 import LlgoVerif.Lemmas.Blocks
+import LlgoVerif.Lemmas.IfaceEq
+import LlgoVerif.Lemmas.StrRange
+import LlgoVerif.Lemmas.TypeCvt
+import LlgoVerif.Model.EfaceEq
 /-!
 # C01 — compiled programs behave as the Go language specifies (core language)
 
@@ -12,10 +16,15 @@ toolchain and through the reference evaluator `CoreGo.run` (checks/c01.py).  The
 * about the ORACLE: the fuel-indexed evaluator has at most one finished result per program, whatever the fuel
   (`eval_fuel_mono`, `eval_deterministic`, `run_fuel_mono`, `run_deterministic`) — "the" reference output exists;
 * about one self-contained COMPILER COMPONENT, the operand-order fix-up of `internal/build/ssa_order_fix.go`
-  (`fixOrder_safe` and its parts), for all blocks.
+  (`fixOrder_safe` and its parts), for all blocks;
+* about three more pieces of llgo whose logic is self-contained (added when seeded changes C01-4/5/6 were studied):
+  the Go-type → raw-type lowering `ssa/type_cvt.go` (`lowering_lossless`, `lowering_keeps_method_sets`, …), the run-time
+  equality of interface values `EfaceEqual` / `nilinterequal` (`efaceEqual_refines`, `efaceEqual_self`, …, and what the
+  reference semantics says about `x == x`: `iface_eq_self`), and `for range` over a string (`range_string_spec`,
+  `range_string_invalid_lead`).
 -/
 namespace LlgoVerif.C01
-open LlgoVerif.CoreGo LlgoVerif.OrderFix LlgoVerif.Blocks
+open LlgoVerif.CoreGo LlgoVerif.OrderFix LlgoVerif.Blocks LlgoVerif.TypeCvt LlgoVerif.EfaceEq
 
 /-! ## the reference evaluator -/
 
@@ -163,5 +172,229 @@ example : checkInfos loopCFG [⟨.always, some 1⟩, ⟨.loop, some 2⟩, ⟨.lo
 example : checkInfos loopCFG [⟨.always, some 1⟩, ⟨.loop, some 2⟩, ⟨.cond, some 3⟩, ⟨.always, none⟩] = false := by decide
 /-- an order that skips a block is rejected -/
 example : checkInfos loopCFG [⟨.always, some 1⟩, ⟨.loop, some 3⟩, ⟨.loop, some 3⟩, ⟨.always, none⟩] = false := by decide
+
+/-! ## `==` on interface values in the reference semantics -/
+
+/-- an interface value compared with itself (`x == x`, or with a copy `y := x`): a run-time panic iff the dynamic value
+    is not comparable (a slice, a func, or a struct / array / interface around one); otherwise `true` iff no NaN takes
+    part in the comparison — for EVERY dynamic type and value -/
+theorem iface_eq_self (t : Ty) (v : Val) :
+    binop .eq (.iface (some (t, v))) (.iface (some (t, v))) =
+      if Val.uncomparable v then .error (rtPanic "comparing uncomparable type") else .ok (.bool (!Val.hasNaN v)) := by
+  cases h : Val.uncomparable v with
+  | true => simp [binop, h]
+  | false => simp [binop, h, beq_self v h]
+
+theorem iface_ne_self (t : Ty) (v : Val) :
+    binop .ne (.iface (some (t, v))) (.iface (some (t, v))) =
+      if Val.uncomparable v then .error (rtPanic "comparing uncomparable type") else .ok (.bool (Val.hasNaN v)) := by
+  cases h : Val.uncomparable v with
+  | true => simp [binop, h]
+  | false => simp [binop, h, beq_self v h]
+
+/-- NaN is not equal to itself, however deep it sits: in the interface, in a struct, in an array inside it -/
+example : binop .eq (.iface (some (.float, .float 0x7ff8000000000001))) (.iface (some (.float, .float 0x7ff8000000000001)))
+    = .ok (.bool false) := by
+  have h : SoftFloat.isNaN SoftFloat.f64 0x7ff8000000000001 = true := by decide
+  rw [iface_eq_self]; simp [Val.uncomparable, Val.hasNaN, h]
+example : (Val.struct [.int .int 1, .arr [.float 0x3ff8000000000000, .float 0x7ff8000000000001]]).hasNaN = true := by decide
+example : Val.uncomparable (.struct [.int .int 1, .slice none 0 0 0]) = true := by decide
+
+/-! ## run-time equality of interface values (`EfaceEqual`, `nilinterequal` / `efaceeq`) -/
+
+/-- **`EfaceEqual` implements Go's interface comparison**: for all operands, whenever the descriptor of the left
+    operand is as the compiler owes it (`DescOK`), the routine answers — value, or panic — what the specification says -/
+theorem efaceEqual_refines {α : Type} (R : ValRepr α) (equal : EqFn) (v u : Eface)
+    (h : ∀ d, v.typ = some d → DescOK R equal d) : efaceEqual equal v u = specEq R v u := by
+  unfold efaceEqual specEq
+  cases hv : v.typ with
+  | none => cases u.typ <;> rfl
+  | some tv =>
+    cases hu : u.typ with
+    | none => rfl
+    | some tu =>
+      have ok := h tv hv
+      simp only
+      by_cases ht : tv.tid ≠ tu.tid
+      · simp [ht]
+      · simp only [ht, if_false]
+        cases he : tv.hasEqual with
+        | false => simp [ok.uncomparable he]
+        | true =>
+          cases hd : tv.direct with
+          | true => simp [ok.direct he hd]
+          | false => simp [ok.indirect he hd]
+
+/-- the `Equal` function of `interface{}` descriptors is the same comparison (one descriptor per type identity) -/
+theorem nilInterEqual_eq_efaceEqual (equal : EqFn) (v u : Eface) :
+    nilInterEqual equal v u = efaceEqual equal v u := by
+  unfold nilInterEqual efaceEqual efaceeq
+  cases hv : v.typ with
+  | none => cases hu : u.typ <;> simp
+  | some tv =>
+    cases hu : u.typ with
+    | none => simp
+    | some tu =>
+      by_cases ht : tv.tid = tu.tid
+      · simp [ht]
+      · simp [ht]
+
+/-- an interface value compared with ITSELF: the answer is Go's `x == x` on the dynamic value — in particular not
+    `true` when that is `false` (NaN inside) and not a value at all when the dynamic type is not comparable -/
+theorem efaceEqual_self {α : Type} (R : ValRepr α) (equal : EqFn) (d : Desc) (w : Nat) (h : DescOK R equal d) :
+    efaceEqual equal ⟨some d, w⟩ ⟨some d, w⟩ = R.veq d.tid (R.val d.tid w) (R.val d.tid w) := by
+  rw [efaceEqual_refines R equal _ _ (by intro d' hd; simp at hd; subst hd; exact h)]
+  simp [specEq]
+
+/-- float64 boxed behind a pointer: the value is the bit pattern stored at the data word, `==` is IEEE equality -/
+def f64Repr (mem : Nat → Nat) : ValRepr Nat :=
+  { val := fun _ p => mem p, veq := fun _ a b => .ok (SoftFloat.cmp SoftFloat.f64 a b == .eq) }
+
+def f64Desc : Desc := ⟨2, true, false⟩
+
+def f64Equal (mem : Nat → Nat) : EqFn := fun _ p q => .ok (SoftFloat.cmp SoftFloat.f64 (mem p) (mem q) == .eq)
+
+theorem f64Desc_ok (mem : Nat → Nat) : DescOK (f64Repr mem) (f64Equal mem) f64Desc :=
+  ⟨by intro h; simp [f64Desc] at h, by intro _ h; simp [f64Desc] at h, by intro _ _ p q; rfl⟩
+
+/-- the hypotheses are satisfiable, and "same data word ⇒ equal" is FALSE: an interface holding NaN is not equal to
+    itself although both operands are one box -/
+theorem efaceEqual_self_nan :
+    efaceEqual (f64Equal (fun _ => 0x7ff8000000000001)) ⟨some f64Desc, 16⟩ ⟨some f64Desc, 16⟩ = .ok false := by
+  rw [efaceEqual_self (f64Repr _) _ _ _ (f64Desc_ok _)]
+  show Except.ok (SoftFloat.cmp SoftFloat.f64 0x7ff8000000000001 0x7ff8000000000001 == .eq) = .ok false
+  have : (SoftFloat.cmp SoftFloat.f64 0x7ff8000000000001 0x7ff8000000000001 == SoftFloat.Cmp.eq) = false := by decide
+  rw [this]
+
+/-- … and a value of an uncomparable dynamic type compared with itself panics -/
+theorem efaceEqual_self_uncomparable (equal : EqFn) (tid w : Nat) (direct : Bool) :
+    efaceEqual equal ⟨some ⟨tid, false, direct⟩, w⟩ ⟨some ⟨tid, false, direct⟩, w⟩ = .error () := by
+  simp [efaceEqual]
+
+
+/-- the reference semantics' `==` as a value representation of the run-time model -/
+def coreRepr (val : Nat → Nat → Val) : ValRepr Val :=
+  { val := val, veq := fun _ a b => if Val.uncomparable a then .error () else .ok (Val.beq a b) }
+
+/-- the interface value an `eface` denotes -/
+def boxOf (tyOf : Nat → Ty) (val : Nat → Nat → Val) (e : Eface) : Val :=
+  .iface (e.typ.map (fun d => (tyOf d.tid, val d.tid e.data)))
+
+/-- the two levels meet: what the evaluator computes for `a == b` on interface values is the specification the
+    run-time routine is proved against (`specEq`), for every denotation of descriptors (injective on identities) and
+    data words -/
+theorem coreGo_iface_eq_is_specEq (tyOf : Nat → Ty) (hinj : ∀ a b, tyOf a = tyOf b → a = b) (val : Nat → Nat → Val)
+    (v u : Eface) :
+    binop .eq (boxOf tyOf val v) (boxOf tyOf val u) =
+      (match specEq (coreRepr val) v u with
+       | .ok b => .ok (.bool b)
+       | .error _ => .error (rtPanic "comparing uncomparable type")) := by
+  unfold boxOf specEq coreRepr
+  cases hv : v.typ with
+  | none => cases hu : u.typ <;> simp [binop, Val.beq]
+  | some tv =>
+    cases hu : u.typ with
+    | none => simp [binop, Val.beq]
+    | some tu =>
+      by_cases ht : tv.tid = tu.tid
+      · cases hc : Val.uncomparable (val tu.tid v.data) <;> simp [binop, ht, hc]
+      · have hty : tyOf tv.tid ≠ tyOf tu.tid := fun h => ht (hinj _ _ h)
+        simp [binop, ht, hty]
+
+/-! ## `for i, r := range s` over a string -/
+
+/-- the evaluator's iteration is the enumeration the specification demands (left-to-right decoding, byte offsets), it is
+    the only such enumeration, and its runes are `[]rune(s)` — through C05's theorems about `StringIterNext` -/
+theorem range_string_spec (s : List Nat) :
+    Slice.Enumerates 0 s (runesOf s.length 0 s) ∧ (∀ l, Slice.Enumerates 0 s l → l = runesOf s.length 0 s) ∧
+    (runesOf s.length 0 s).map (·.2) = Utf8.toRunes s := by
+  rw [runesOf_iterAll]
+  exact ⟨Slice.iter_spec' s, fun _ hl => Slice.Enumerates.unique hl (Slice.iter_spec' s), Slice.iterAll_runes s⟩
+
+/-- a byte that cannot start a well-formed encoding — a stray continuation byte `80..BF` (in particular `80` itself),
+    the overlong leads `C0`/`C1`, `F5..FF` — is ONE rune U+FFFD of width 1 at its own index, whatever follows -/
+theorem range_string_invalid_lead (fuel i b : Nat) (t : List Nat) (h : (0x80 ≤ b ∧ b < 0xC2) ∨ 0xF5 ≤ b) :
+    runesOf (fuel + 1) i (b :: t) = (i, 0xFFFD) :: runesOf fuel (i + 1) t :=
+  runesOf_invalid_lead fuel i b t h
+
+/-- an ASCII byte is itself -/
+theorem range_string_ascii (fuel i b : Nat) (t : List Nat) (h : b < 0x80) :
+    runesOf (fuel + 1) i (b :: t) = (i, b) :: runesOf fuel (i + 1) t :=
+  runesOf_ascii fuel i b t h
+
+/-- "a\x80b": the stray continuation byte is U+FFFD (65533) at index 1, not rune 128 -/
+example : runesOf 3 0 [0x61, 0x80, 0x62] = [(0, 0x61), (1, 0xFFFD), (2, 0x62)] := by decide
+example : (0x80 ≤ 0x80 ∧ 0x80 < 0xC2) ∨ 0xF5 ≤ 0x80 := by decide
+
+/-! ## the Go-type → raw-type lowering (`ssa/type_cvt.go`) -/
+
+/-- **lossless**: whatever `cvtType` returns for a source type reads back (`unlower`: closure structs → func types, raw
+    twins → their declarations) as exactly that source type — field names, order, embedded flags, tags, array lengths,
+    channel directions, variadic-ness included; an unchanged answer (`cvt = false`) is the type itself -/
+theorem lowering_lossless (D : Decls) (hD : SrcDecls D) (fuel : Nat) (t : GTy) (m : Memo) (r : (GTy × Bool) × Memo)
+    (hs : isSrc t = true) (hm : MemoOK D m) (h : cvt D fuel t m = some r) :
+    unlower r.1.1 = t ∧ (r.1.2 = false → r.1.1 = t) ∧ MemoOK D r.2 := by
+  obtain ⟨a, b, _, _, c⟩ := cvt_ok hD fuel t m r hs hm h
+  exact ⟨a, b, c⟩
+
+/-- the lowering is injective on source types: two source types with the same lowered type are the same type (for
+    any fuels and memo tables) — nothing the type identity depends on is dropped -/
+theorem lowering_injective (D : Decls) (hD : SrcDecls D) (f₁ f₂ : Nat) (t₁ t₂ : GTy) (m₁ m₂ : Memo)
+    (r₁ r₂ : (GTy × Bool) × Memo) (h₁s : isSrc t₁ = true) (h₂s : isSrc t₂ = true) (hm₁ : MemoOK D m₁) (hm₂ : MemoOK D m₂)
+    (h₁ : cvt D f₁ t₁ m₁ = some r₁) (h₂ : cvt D f₂ t₂ m₂ = some r₂) (he : r₁.1.1 = r₂.1.1) : t₁ = t₂ := by
+  have a := (cvt_ok hD f₁ t₁ m₁ r₁ h₁s hm₁ h₁).1
+  have b := (cvt_ok hD f₂ t₂ m₂ r₂ h₂s hm₂ h₂).1
+  rw [← a, ← b, he]
+
+/-- a lowered struct has the fields of the source struct: same number and order, same names, embedded flags, tags and
+    (up to the raw twin) the same embedded type heads -/
+theorem lowering_keeps_fields (D : Decls) (hD : SrcDecls D) (fuel : Nat) (t : GTy) (m : Memo) (r : (GTy × Bool) × Memo)
+    (hs : isSrc t = true) (hm : MemoOK D m) (h : cvt D fuel t m = some r) :
+    (fieldsOf (some r.1.1)).map key = (fieldsOf (some t)).map key :=
+  (cvt_ok hD fuel t m r hs hm h).2.2.1
+
+/-- **method sets survive the lowering**: after any conversion, membership of a method name in the method set of a
+    named type or of the pointer to it (promotion through embedded `T` / `*T` fields at every depth, shallowest-depth
+    rule, pointer-receiver rule) is the same whether it is computed from the raw twins — as `abiUncommonMethodSet`
+    does — or from the source declarations -/
+theorem lowering_keeps_method_sets (D : Decls) (hD : SrcDecls D) (fuel : Nat) (t : GTy) (m : Memo) (r : (GTy × Bool) × Memo)
+    (hs : isSrc t = true) (hm : MemoOK D m) (h : cvt D fuel t m = some r)
+    (depth id : Nat) (raw addr : Bool) (n : String) :
+    inMethodSet (rawUniv D r.2) depth id raw addr n = inMethodSet (srcUniv D) depth id false addr n := by
+  have hm' := (cvt_ok hD fuel t m r hs hm h).2.2.2.2
+  unfold inMethodSet
+  rw [selectAt_raw hm' id raw false addr n depth 0]
+
+/-- the same for an unnamed struct type: what its embedded fields promote at every depth -/
+theorem lowering_keeps_promoted (D : Decls) (hD : SrcDecls D) (fuel : Nat) (t : GTy) (m : Memo) (r : (GTy × Bool) × Memo)
+    (hs : isSrc t = true) (hm : MemoOK D m) (h : cvt D fuel t m = some r) (d : Nat) (addr : Bool) :
+    embEntries (levelNames (rawUniv D r.2) d) addr (fieldsOf (some r.1.1))
+      = embEntries (levelNames (srcUniv D) d) addr (fieldsOf (some t)) := by
+  obtain ⟨_, _, hk, _, hm'⟩ := cvt_ok hD fuel t m r hs hm h
+  exact embEntries_congr (fun i r₁ r₂ a => levelNames_raw hm' d i r₁ r₂ a) addr _ _ hk
+
+/-- `type Base struct { N int; Fn func(int) int }` with methods `Ma` (value) and `Mb` (pointer);
+    `type Outer struct { Base; Tag int }` -/
+def demoDecls : Decls
+  | 0 => some ⟨.struct [.mk "N" (.basic "int") false "", .mk "Fn" (.sig [.basic "int"] [.basic "int"] false) false ""],
+               [("Ma", false), ("Mb", true)]⟩
+  | 1 => some ⟨.struct [.mk "Base" (.named 0 false) true "", .mk "Tag" (.basic "int") false "json:\"t\""], []⟩
+  | _ => none
+
+theorem demoDecls_src : SrcDecls demoDecls := by
+  intro id d h
+  match id with
+  | 0 => simp [demoDecls] at h; subst h; decide
+  | 1 => simp [demoDecls] at h; subst h; decide
+  | n+2 => simp [demoDecls] at h
+
+/-- the hypotheses are satisfiable and the conversion does something: `Outer` gets a raw twin whose underlying struct
+    still embeds (the raw twin of) `Base` and keeps the tag; `Ma` is promoted to `Outer`, `Mb` only to `*Outer` -/
+example : (cvt demoDecls 10 (.named 1 false) []).map (fun r => (r.1.2, (lookup r.2 1).map (fun o => o.map keys), (lookup r.2 0).map (fun o => o.map keys))) =
+    some (true, some (some [("Base", true, "", .named 0 false), ("Tag", false, "json:\"t\"", .other)]),
+                some (some [("N", false, "", .other), ("Fn", false, "", .other)])) := by rfl
+example : inMethodSet (srcUniv demoDecls) 4 1 false false "Ma" = true ∧ inMethodSet (srcUniv demoDecls) 4 1 false false "Mb" = false
+    ∧ inMethodSet (srcUniv demoDecls) 4 1 false true "Mb" = true := by decide
+
 
 end LlgoVerif.C01
